@@ -190,6 +190,36 @@ class LogsDriver:
             self.lines[:] = []
             w.do(str(t), "call", lambda: ctx.log_info("plain message"))   # probe through the scope just entered
             return self._fin(self._line(sid, "noargs", new_scope=sid), t)
+        if name == "Make":
+            # the scope object is made here (name, logger, trace id fixed now) and entered later, maybe by another task
+            t, labk, ownlog, owntrace = args
+            self.nsid += 1
+            sid = self.made_sid = self.nsid
+            self.label_kind[sid] = labk
+            lab = self.labels[sid] = self._label(labk, sid)
+            self.parent[sid] = self.cur.get(t, 0)
+            kw = {}
+            if ownlog:
+                kw["logger"] = self._own_logger(sid)
+            if owntrace == "own":
+                kw["trace_id"] = f"T{sid}%2F%s"
+            elif owntrace == "empty":
+                kw["trace_id"] = ""
+                self.empty_trace.add(sid)
+            w.do(str(t), "prepare", "ascope" if sid % 2 == 0 else "sscope", sid, [], lab, kw)
+            self.lines[:] = []
+            return self._fin(dict(lg=dict(kind="none", s=0), lvl="none", tr=dict(given=False, s=0), label="none", ident=0,
+                                  text="none", exc=False, res="ok"), t)
+        if name == "EnterMade":
+            t = args[0]
+            sid = self.made_sid
+            self.stack.setdefault(t, []).append(sid)
+            self.cur[t] = sid
+            w.do(str(t), "tryu")
+            w.do(str(t), "enterprep")
+            self.lines[:] = []
+            w.do(str(t), "call", lambda: ctx.log_info("plain message"))
+            return self._fin(self._line(sid, "noargs", new_scope=sid), t)
         if name == "Close":
             t = args[0]
             sid = self.stack[t].pop()
@@ -274,12 +304,17 @@ def gen_trace(rnd, ntasks=4, nscopes=10, nops=40):
     tr = [dict(ev="Init", init={})]
     stack = {1: []}
     alive, born, nsid = [1], 1, 0
+    made = None
     try:
         for _ in range(nops):
             t = rnd.choice(alive)
             ch = [("Log", None)] * 5
             if nsid < nscopes and len(stack[t]) < 5:
                 ch += [("Open", None)] * 4
+                if made is None:
+                    ch += [("Make", None)]
+            if made is not None and len(stack[t]) < 5:
+                ch += [("EnterMade", None)] * 2
             if stack[t]:
                 ch += [("Close", None)] * 2
             if born < ntasks:
@@ -289,6 +324,14 @@ def gen_trace(rnd, ntasks=4, nscopes=10, nops=40):
                 args = [t, rnd.choice(["plain", "empty", "fmt", "pct"]), rnd.random() < 0.3, rnd.choice(["no"] * 5 + ["own"] * 3 + ["empty"] * 2)]
                 nsid += 1
                 stack[t].append(nsid)
+            elif name == "Make":
+                args = [t, rnd.choice(["plain", "empty", "fmt", "pct"]), rnd.random() < 0.3, rnd.choice(["no"] * 5 + ["own"] * 3 + ["empty"] * 2)]
+                nsid += 1
+                made = nsid
+            elif name == "EnterMade":
+                args = [t]
+                stack[t].append(made)
+                made = None
             elif name == "Close":
                 args = [t, rnd.choice(["return", "return", "cancel"])]
                 stack[t].pop()
@@ -310,34 +353,39 @@ def gen_trace(rnd, ntasks=4, nscopes=10, nops=40):
 TRACE_KW = dict(
     variables=["par", "phase", "label", "lg", "tr", "cur", "stack", "saved", "alive", "nops", "obs"],
     constants=dict(NTasks=4, N=10, MaxOps=100000, Labels='{"plain", "empty", "fmt", "pct"}',
-                   Levels='{"debug", "info", "warning", "error"}', Bug='"none"', OwnTraces='{"no", "own", "empty"}'),
-    config_vars=[], actions=dict(Open=4, Close=2, Log=4, Start=2),
+                   Levels='{"debug", "info", "warning", "error"}', Bug='"none"', Prep="TRUE", OwnTraces='{"no", "own", "empty"}'),
+    config_vars=[], actions=dict(Open=4, Make=4, EnterMade=1, Close=2, Log=4, Start=2),
     invariants=["LoggerRule", "TraceInherited", "LineSane"])
 
 
 def run(rep, work, tier, seed):
     lv = ["debug", "info", "warning", "error"]
     if tier == "quick":
-        mc = dict(NTasks=2, N=3, MaxOps=4, Labels=["plain", "empty", "fmt", "pct"], Levels=lv, OwnTraces=["no", "own"], Bug="none")
-        conf = dict(NTasks=2, N=3, MaxOps=3, Labels=["plain", "empty", "fmt"], Levels=lv, OwnTraces=["no", "own"], Bug="none")
+        mc = dict(NTasks=2, N=3, MaxOps=4, Labels=["plain", "empty", "fmt", "pct"], Levels=lv, OwnTraces=["no", "own"], Prep=False, Bug="none")
+        conf = dict(NTasks=2, N=3, MaxOps=3, Labels=["plain", "empty", "fmt"], Levels=lv, OwnTraces=["no", "own"], Prep=False, Bug="none")
     else:
-        mc = dict(NTasks=2, N=4, MaxOps=5, Labels=["plain", "empty", "fmt", "pct"], Levels=["debug", "warning"], OwnTraces=["no", "own"], Bug="none")
-        conf = dict(NTasks=2, N=3, MaxOps=4, Labels=["plain", "empty", "fmt", "pct"], Levels=["info", "warning", "error"], OwnTraces=["no", "own"], Bug="none")
+        mc = dict(NTasks=2, N=4, MaxOps=5, Labels=["plain", "empty", "fmt", "pct"], Levels=["debug", "warning"], OwnTraces=["no", "own"], Prep=False, Bug="none")
+        conf = dict(NTasks=2, N=3, MaxOps=4, Labels=["plain", "empty", "fmt", "pct"], Levels=["info", "warning", "error"], OwnTraces=["no", "own"], Prep=False, Bug="none")
     rep.extra["constants"] = dict(model=mc, conformance=conf)
     leg_m(rep, work, SPEC, f"mc_{tier}", cfg_text(mc, invariants=INVS), expect_actions=["Open", "Close", "Log", "Start"],
           timeout=3000)
     if tier == "thorough":
-        small = dict(NTasks=1, N=3, MaxOps=4, Labels=["plain", "fmt"], Levels=["warning"], OwnTraces=["no", "own"])
+        small = dict(NTasks=1, N=3, MaxOps=4, Labels=["plain", "fmt"], Levels=["warning"], OwnTraces=["no", "own"], Prep=False)
         for bug, inv in (("fresh_trace", ["TraceInherited"]), ("outermost_logger", ["LoggerRule"]),
                          ("lost_on_format", ["LineSane"])):
             leg_mutant(rep, work, SPEC, f"mutant_{bug}", cfg_text(dict(small, Bug=bug), invariants=INVS), inv)
     leg_r(rep, work, SPEC, f"conf_{tier}", cfg_text(conf, invariants=INVS), make, world=True)
     # a task that outlives the scope it inherited and opens a scope afterwards (4-5 operations), on a narrow alphabet
-    late = dict(NTasks=2, N=3, MaxOps=4 if tier == "quick" else 5, Labels=["plain"], Levels=["warning"], OwnTraces=["no", "own"], Bug="none")
+    late = dict(NTasks=2, N=3, MaxOps=4 if tier == "quick" else 5, Labels=["plain"], Levels=["warning"], OwnTraces=["no", "own"], Prep=False, Bug="none")
     leg_r(rep, work, SPEC, f"conf_late_{tier}", cfg_text(late, invariants=INVS), make, world=True)
+    # scope objects made in one place and entered in another: name, logger and trace id are those of the place of making,
+    # lines logged inside go there whichever task entered it
+    madec = dict(NTasks=2, N=3, MaxOps=4, Labels=["plain"], Levels=["warning"], OwnTraces=["no", "own"], Prep=True, Bug="none")
+    leg_m(rep, work, SPEC, f"made_mc_{tier}", cfg_text(madec, invariants=INVS), expect_actions=["Make", "EnterMade", "Log"])
+    leg_r(rep, work, SPEC, f"made_conf_{tier}", cfg_text(madec, invariants=INVS), make, world=True)
     # a scope given the EMPTY string as its trace id: read as "none given" or as an id like any other, nothing else (the
     # specification offers both, so this graph has successor sets and is walked by one process - kept small)
-    empty = dict(NTasks=2, N=3, MaxOps=3, Labels=["plain"], Levels=["warning"], Bug="none", OwnTraces=["no", "own", "empty"])
+    empty = dict(NTasks=2, N=3, MaxOps=3, Labels=["plain"], Levels=["warning"], Bug="none", Prep=False, OwnTraces=["no", "own", "empty"])
     leg_r(rep, work, SPEC, f"conf_empty_{tier}", cfg_text(empty, invariants=INVS), make, world=True)
     # leg T: random programs (4 tasks, 10 scopes, nesting up to 5) validated by a trace module generated from Logs.tla
     rnd = random.Random(seed * 47 + 9)
